@@ -1,7 +1,7 @@
 #!/bin/bash
 # scratch_seedsweep.sh [seed ids...]: like seedsweep.sh, but in a scratch clone of /repo and a scratch copy of /verif
 # (/tmp/seedt), so that /repo stays untouched. Checks run: the seed's own property, or $CHECKS if set.
-S=/tmp/seedt
+S=${SEEDT:-/tmp/seedt}
 mkdir -p $S
 if [ ! -d $S/repo/.git ]; then git clone -q /repo $S/repo; fi
 git -C $S/repo fetch -q /repo HEAD && git -C $S/repo checkout -q --detach FETCH_HEAD && git -C $S/repo checkout -q -- .
